@@ -117,7 +117,9 @@ def model_runs(ctx):
         add("LzwGif lw=%d codes<=%d %s" % (lw, mc, pk), "LzwGif", ["lzw"], ["LW = %d" % lw, "MaxCodes = %d" % mc, "BranchCap = %d" % cap, 'PrefixKind = "%s"' % pk],
             ["TypeOK", "EntriesGrow", "Export"], props=["EntriesStable"], workers=4 if t else 2)
     add("PngFilter", "PngFilter", ["pngfilter"], ["Widths = %s" % ("{1, 2, 3, 4, 5}" if t else "{1, 2, 3, 4}"), "Bpps = {1, 2, 3, 4}", "Fills = %s" % ("{1, 2, 3}" if t else "{1}"),
-                                                 "LongFills = %s" % ("{1, 2, 3}" if t else "{1}"), "Seed = %d" % seed], ["TypeOK", "FilterInverts", "Export"], workers=4 if t else 2)
+                                                 "LongFills = %s" % ("{1, 2, 3}" if t else "{1}"), "RawFills = %s" % ("{1, 2, 3}" if t else "{1}"),
+                                                 'TieModes = {"tieBC", "tieAC"}', "Seed = %d" % seed],
+        ["TypeOK", "FilterInverts", "RawRoundTrip", "TiesAreTies", "Export"], workers=4 if t else 2)
     return runs
 
 
@@ -685,7 +687,8 @@ def run(ctx):
                 t["hasher"], t["expect_sum"] = e["dec"], e["sums"][e["dec"]]
         elif fam in ("fmt:pngfilter", "fmt:giflzw"):
             plan.add(e, "image", one(), layer="i")
-            if fam == "fmt:pngfilter" and (thorough or rng.random() < 0.5):
+            # bytes-per-pixel 3 and 4 have SIMD filter implementations: those cases also run on the build without them
+            if fam == "fmt:pngfilter" and e["settings"]["bpp"] >= 3 and (thorough or rng.random() < 0.6):
                 plan.add(e, "image", plan.pick_class(e, n, 0, cap, image=True), exe="plain_nocpu", layer="i")
         else:
             steps = [{"oracle": m["oracle"], "out_len": m["out_len"]} for m in e["chain"]] if e.get("chain") else None
@@ -736,7 +739,7 @@ def run(ctx):
             ev[1] = dict(ev[1], sum=(end or {}).get("sum", ""))   # no independent reference: trivially its own value (status / purity clauses still apply)
     ctx.log("driver runs done: %d jobs, %d events" % (len(traces), sum(len(ev) for (_, ev, _, _) in traces)))
     traces.sort(key=lambda x: x[0])
-    nev, rej = stdtrace.validate(ctx, [(jid, ev) for (jid, ev, _, _) in traces], "reference", "C07")
+    nev, rej = stdtrace.validate(ctx, [(jid, ev) for (jid, ev, _, _) in traces], "reference", "C07", chunk_events=6000, max_rejections=40)
     ctx.log("TLC validated %d events against Trace_Std (Mode=reference), %d rejections" % (nev, len(rej)))
     trace_of = {jid: (ev, t, step) for (jid, ev, t, step) in traces}
     report(ctx, plan, rej, trace_of)
